@@ -68,6 +68,19 @@ pub enum Case {
         /// cyclic fault pattern for writes to the tty
         faults: Vec<Fault>,
     },
+    /// `Terminal::run_render` on a pseudo-terminal whose other end does not drain: the render
+    /// loop falls behind and applies its frame dropping policy
+    Render {
+        rows: u16,
+        cols: u16,
+        /// number of frames the handler renders before it quits
+        total: u8,
+        /// the peer starts draining when this many frames have been rendered
+        release_at: u8,
+        /// bytes queued (one chunk) before the loop starts, so that the tty is full from the start
+        filler: usize,
+        faults: Vec<Fault>,
+    },
 }
 
 // ---- (a) queue model ---------------------------------------------------------------------
@@ -251,6 +264,278 @@ fn inconclusive(msg: &str) -> ! {
     std::process::exit(2);
 }
 
+struct WriteHookGuard;
+impl Drop for WriteHookGuard {
+    fn drop(&mut self) {
+        unix_verif_hooks::set_write_hook(None);
+    }
+}
+
+fn install_faults(faults: &[Fault]) -> (WriteHookGuard, std::rc::Rc<std::cell::Cell<usize>>) {
+    let fault_count = std::rc::Rc::new(std::cell::Cell::new(0usize));
+    if !faults.is_empty() {
+        let pattern: Vec<Fault> = faults.to_vec();
+        let mut idx = 0usize;
+        let fc = fault_count.clone();
+        unix_verif_hooks::set_write_hook(Some(Box::new(move |len| {
+            let f = pattern[idx % pattern.len()];
+            idx += 1;
+            match f {
+                Fault::None => WriteFault::None,
+                Fault::Short(n) => {
+                    fc.set(fc.get() + 1);
+                    WriteFault::Short((n as usize).clamp(1, len.max(1)))
+                }
+                Fault::WouldBlock => {
+                    fc.set(fc.get() + 1);
+                    WriteFault::WouldBlock
+                }
+                Fault::Interrupted => {
+                    fc.set(fc.get() + 1);
+                    WriteFault::Interrupted
+                }
+            }
+        })));
+    }
+    (WriteHookGuard, fault_count)
+}
+
+const SYNC_BEGIN: &[u8] = b"\x1b[?2026h";
+const SYNC_END: &[u8] = b"\x1b[?2026l";
+
+fn find(hay: &[u8], needle: &[u8], from: usize) -> Option<usize> {
+    if from > hay.len() {
+        return None;
+    }
+    hay[from..].windows(needle.len()).position(|w| w == needle).map(|i| i + from)
+}
+
+/// (c) the render loop with its frame dropping policy
+fn check_render(rows: u16, cols: u16, total: u8, release_at: u8, filler: usize, faults: &[Fault]) -> Outcome {
+    use surf_n_term::{Cell, Face, Surface, SurfaceMut, TerminalAction};
+    let pty = Pty::open().unwrap_or_else(|e| inconclusive(&format!("cannot open pty: {e}")));
+    pty.set_winsize(rows, cols);
+    let peer = Peer::spawn(&pty);
+    let mut term = SystemTerminal::open(&pty.slave_path)
+        .map_err(|e| Fail::new("pty/open-error", format!("SystemTerminal::open failed: {e:?}")))?;
+    let send0 = term.stats().send;
+    if !peer.wait_received(send0, Duration::from_secs(5)) {
+        inconclusive("peer did not receive the handshake");
+    }
+    let (_hook_guard, fault_count) = install_faults(faults);
+    // the other end stops draining; one chunk of filler occupies the tty
+    peer.state.stalled.store(true, std::sync::atomic::Ordering::SeqCst);
+    let filler_bytes: Vec<u8> = (0..filler).map(|i| b'0' + (i % 10) as u8).collect();
+    if filler > 0 {
+        term.write_all(&filler_bytes).map_err(|e| Fail::new("pty/write-error", format!("{e:?}")))?;
+        term.flush().map_err(|e| Fail::new("pty/flush-error", format!("{e:?}")))?;
+    }
+    let cell_char = |step: u32, r: usize, c: usize| (b'a' + ((r * 7 + c * 3 + step as usize) % 26) as u8) as char;
+    let mut step = 0u32;
+    let mut max_pending = 0usize;
+    let mut size_seen = (0usize, 0usize);
+    let mut unmarked_steps: Vec<u32> = Vec::new();
+    let st = peer.state.clone();
+    let started = Instant::now();
+    let result: Result<(), surf_n_term::Error> = term.run_render(|term, _ev, mut view| {
+        if started.elapsed() > WATCHDOG {
+            inconclusive("render session exceeded the watchdog");
+        }
+        max_pending = max_pending.max(term.frames_pending());
+        if step == release_at as u32 {
+            st.stalled.store(false, std::sync::atomic::Ordering::SeqCst);
+        }
+        step += 1;
+        // a marker written by the application itself opens the chunk of this frame -- except
+        // in an iteration in which the loop is about to drop frames: what the handler writes
+        // directly in such an iteration is in the unflushed trailing chunk, which is not a
+        // frame yet and is discarded with the others; the loop assumes handlers draw on the
+        // surface only, and so does this harness then
+        if term.frames_pending() > 32 {
+            unmarked_steps.push(step);
+        } else {
+            write!(term, "<#{step:06}>").map_err(surf_n_term::Error::from)?;
+        }
+        size_seen = (view.height(), view.width());
+        for r in 0..view.height() {
+            for c in 0..view.width() {
+                if let Some(cell) = view.get_mut(surf_n_term::Position::new(r, c)) {
+                    *cell = Cell::new_char(Face::default(), cell_char(step, r, c));
+                }
+            }
+        }
+        if step > total as u32 {
+            Ok(TerminalAction::Quit(()))
+        } else {
+            Ok(TerminalAction::Sleep(Duration::ZERO))
+        }
+    });
+    result.map_err(|e| Fail::new("render/run-error", format!("run_render failed: {e:?}")))?;
+    let last_step = step;
+    // drain
+    peer.free_run();
+    let t0 = Instant::now();
+    loop {
+        term.poll(Some(Duration::from_millis(5)))
+            .map_err(|e| Fail::new("pty/poll-error", format!("poll failed: {e:?}")))?;
+        if term.frames_pending() == 0 {
+            break;
+        }
+        if t0.elapsed() > WATCHDOG {
+            let received = peer.received();
+            let data = &received[send0.min(received.len())..];
+            ensure!(
+                data.len() <= filler || data[..filler] == filler_bytes[..],
+                "render/filler-corrupted",
+                "the output queue does not drain and the chunk in flight did not arrive intact"
+            );
+            inconclusive("output queue did not drain at the end of the render session");
+        }
+    }
+    let send_total = term.stats().send;
+    if !peer.wait_received(send_total, Duration::from_secs(10)) {
+        let got = peer.received_len();
+        return Err(Fail::new(
+            "pty/sent-counter-exceeds-received",
+            format!("stats().send = {send_total} but the other end of the pty received only {got} bytes"),
+        ));
+    }
+    let received = peer.received();
+    let data = &received[send0..send_total];
+    // the chunk that was in flight when the loop started arrives whole, exactly once, first
+    ensure!(
+        data.len() >= filler && data[..filler] == filler_bytes[..],
+        "render/chunk-in-flight-torn",
+        "the {filler} byte chunk that was being transmitted while frames were dropped did not arrive intact at the head of the stream (first difference at byte {:?})",
+        (0..filler.min(data.len())).find(|&i| data[i] != filler_bytes[i])
+    );
+    // frames = synchronized updates: begin and end markers alternate strictly
+    let mut p = filler;
+    let mut frames: Vec<(usize, usize)> = Vec::new();
+    loop {
+        let b = find(data, SYNC_BEGIN, p);
+        let e = find(data, SYNC_END, p);
+        match (b, e) {
+            (None, None) => break,
+            (Some(b), Some(e)) if b < e => {
+                let body = b + SYNC_BEGIN.len();
+                // no second begin before the end
+                if let Some(b2) = find(data, SYNC_BEGIN, body) {
+                    ensure!(
+                        b2 > e,
+                        "render/frame-torn",
+                        "stream offset {b2}: a frame begins inside the frame that began at {b} (its end never arrived): frames delivered so far {}",
+                        frames.len()
+                    );
+                }
+                frames.push((body, e));
+                p = e + SYNC_END.len();
+            }
+            (_, Some(e)) => {
+                return Err(Fail::new(
+                    "render/frame-torn",
+                    format!(
+                        "stream offset {e}: end of a frame whose beginning never arrived ({} whole frames before it; {} frames rendered, queue depth reached {max_pending}); bytes before it {:?}",
+                        frames.len(),
+                        last_step,
+                        String::from_utf8_lossy(&data[e.saturating_sub(40)..e])
+                    ),
+                ));
+            }
+            (Some(b), None) => {
+                return Err(Fail::new(
+                    "render/frame-torn",
+                    format!("stream offset {b}: a frame begins but its end never arrives ({} whole frames before it)", frames.len()),
+                ));
+            }
+        }
+    }
+    ensure!(
+        frames.len() <= last_step as usize,
+        "render/frame-duplicated",
+        "{} frames delivered but only {last_step} rendered",
+        frames.len()
+    );
+    // chunk = marker written by the handler + the synchronized update of that frame:
+    // markers increase strictly, each is followed by exactly its frame, and the frame rendered
+    // last (written after any drop) has arrived
+    let _ = size_seen;
+    let mut last_no = 0u32;
+    let mut q = filler;
+    let mut unmarked = 0usize;
+    let mut last_marked = false;
+    for (i, (b, e)) in frames.iter().enumerate() {
+        let head = &data[q..*b - SYNC_BEGIN.len()];
+        q = *e + SYNC_END.len();
+        if head.is_empty() {
+            // a frame rendered in an iteration that dropped frames: it is the next step after
+            // the frames before it, at the earliest
+            unmarked += 1;
+            last_marked = false;
+            let Some(no) = unmarked_steps.iter().copied().find(|s| *s > last_no) else {
+                return Err(Fail::new(
+                    "render/frame-torn",
+                    format!(
+                        "delivered frame #{i} arrives without the marker the application wrote in front of it, after marker {last_no}; markers were omitted only at steps {:?}",
+                        unmarked_steps
+                    ),
+                ));
+            };
+            last_no = no;
+            continue;
+        }
+        let no = std::str::from_utf8(head)
+            .ok()
+            .and_then(|t| t.strip_prefix("<#"))
+            .and_then(|t| t.strip_suffix('>'))
+            .and_then(|t| t.parse::<u32>().ok());
+        let Some(no) = no else {
+            return Err(Fail::new(
+                "render/frame-torn",
+                format!(
+                    "delivered frame #{i}: the bytes between the previous frame and this one are {:?}, not the marker the application wrote in front of the frame",
+                    String::from_utf8_lossy(&head[..head.len().min(60)])
+                ),
+            ));
+        };
+        ensure!(
+            no > last_no && no <= last_step,
+            "render/frame-out-of-order-or-duplicated",
+            "delivered frame #{i} carries marker {no} after marker {last_no} ({last_step} frames rendered)"
+        );
+        last_no = no;
+        last_marked = true;
+    }
+    ensure!(
+        q == data.len(),
+        "render/frame-torn",
+        "{} bytes after the last whole frame: {:?}",
+        data.len() - q,
+        String::from_utf8_lossy(&data[q..(q + 60).min(data.len())])
+    );
+    ensure!(
+        unmarked <= unmarked_steps.len(),
+        "render/frame-torn",
+        "{unmarked} frames arrive without marker but only {} were written without one",
+        unmarked_steps.len()
+    );
+    // the frame rendered last was written after any drop: it must have arrived
+    let last_unmarked = unmarked_steps.last() == Some(&last_step);
+    ensure!(
+        !frames.is_empty() && ((last_marked && last_no == last_step) || (last_unmarked && !last_marked)),
+        "render/last-frame-lost",
+        "the last frame delivered is that of step {last_no} but {last_step} frames were rendered: output written after the last frame drop never arrived"
+    );
+    drop(term);
+    let dropped = max_pending > 32;
+    Ok(Pass::new(dropped)
+        .label("render")
+        .label_if(dropped, "render:frames-dropped")
+        .label_if(frames.len() < last_step as usize, "render:fewer-frames-delivered-than-rendered")
+        .label_if(fault_count.get() > 0, "injected-write-faults")
+        .label_if(filler > 0, "render:chunk-in-flight"))
+}
+
 fn check_pty(ops: &[TOp], bite: usize, pause_us: usize, faults: &[Fault]) -> Outcome {
     let pty = Pty::open().unwrap_or_else(|e| inconclusive(&format!("cannot open pty: {e}")));
     let peer = Peer::spawn(&pty);
@@ -358,11 +643,19 @@ fn check_pty(ops: &[TOp], bite: usize, pause_us: usize, faults: &[Fault]) -> Out
             TOp::PollUntilDrained => {
                 open = false;
                 let t0 = Instant::now();
+                let mut checked = Instant::now();
                 loop {
                     term.poll(Some(Duration::from_millis(5)))
                         .map_err(|e| Fail::new("pty/poll-error", format!("poll failed: {e:?}")))?;
                     if term.frames_pending() == 0 {
                         break;
+                    }
+                    // a queue that does not drain may be a queue that sends the same bytes
+                    // again and again: look at what has arrived so far
+                    if checked.elapsed() > Duration::from_millis(500) {
+                        let received = peer.received();
+                        validate_stream(&received[send0.min(received.len())..], &chunks, false)?;
+                        checked = Instant::now();
                     }
                     if t0.elapsed() > WATCHDOG {
                         inconclusive("output queue did not drain within the watchdog");
@@ -394,11 +687,17 @@ fn check_pty(ops: &[TOp], bite: usize, pause_us: usize, faults: &[Fault]) -> Out
     // finish: drain everything, free-running peer, no more faults
     peer.free_run();
     let t0 = Instant::now();
+    let mut checked = Instant::now();
     loop {
         term.poll(Some(Duration::from_millis(5)))
             .map_err(|e| Fail::new("pty/poll-error", format!("poll failed: {e:?}")))?;
         if term.frames_pending() == 0 {
             break;
+        }
+        if checked.elapsed() > Duration::from_millis(500) {
+            let received = peer.received();
+            validate_stream(&received[send0.min(received.len())..], &chunks, false)?;
+            checked = Instant::now();
         }
         if t0.elapsed() > WATCHDOG {
             inconclusive("output queue did not drain at the end of the session");
@@ -416,36 +715,7 @@ fn check_pty(ops: &[TOp], bite: usize, pause_us: usize, faults: &[Fault]) -> Out
     let received = peer.received();
     let data = &received[send0..send_total];
 
-    // parse: whole chunks only, in increasing order, each at most once
-    let mut p = 0usize;
-    let mut next = 0usize;
-    let mut present = vec![false; chunks.len()];
-    while p < data.len() {
-        // which chunk starts here?
-        let found = (next..chunks.len()).find(|&i| data[p..].starts_with(&chunks[i].header));
-        let Some(i) = found else {
-            let near = &data[p..(p + 40).min(data.len())];
-            return Err(Fail::new(
-                "pty/stream-out-of-order-or-torn",
-                format!(
-                    "received stream position {p}: no chunk >= #{next} starts here (bytes {:?}); a chunk was torn, duplicated or reordered",
-                    String::from_utf8_lossy(near)
-                ),
-            ));
-        };
-        let c = &chunks[i];
-        let end = p + c.bytes.len();
-        if end > data.len() || data[p..end] != c.bytes[..] {
-            let upto = (0..c.bytes.len().min(data.len() - p)).find(|&k| data[p + k] != c.bytes[k]).unwrap_or(data.len() - p);
-            return Err(Fail::new(
-                "pty/chunk-torn-or-corrupted",
-                format!("chunk #{i} ({} bytes) arrives only up to byte {upto}", c.bytes.len()),
-            ));
-        }
-        present[i] = true;
-        p = end;
-        next = i + 1;
-    }
+    let present = validate_stream(data, &chunks, true)?;
     for (i, c) in chunks.iter().enumerate() {
         ensure!(
             present[i] || c.droppable,
@@ -465,6 +735,50 @@ fn check_pty(ops: &[TOp], bite: usize, pause_us: usize, faults: &[Fault]) -> Out
         .label_if(bite > 0, "throttled-peer")
         .label_if(dropped > 0, "chunks-dropped")
         .label_if(chunks.iter().any(|c| c.droppable), "frames-drop-with-pending"))
+}
+
+/// Parse the bytes received after the handshake: whole chunks only, in increasing order, each
+/// at most once.  With `complete == false` the data is a prefix of what will arrive: the last
+/// chunk may be cut short.  Returns which chunks are present.
+fn validate_stream(data: &[u8], chunks: &[Chunk], complete: bool) -> Result<Vec<bool>, Fail> {
+    let mut p = 0usize;
+    let mut next = 0usize;
+    let mut present = vec![false; chunks.len()];
+    while p < data.len() {
+        // which chunk starts here?
+        let rest = &data[p..];
+        let found = (next..chunks.len()).find(|&i| {
+            let h = &chunks[i].header;
+            if rest.len() >= h.len() { rest.starts_with(h) } else { !complete && h.starts_with(rest) }
+        });
+        let Some(i) = found else {
+            let near = &data[p..(p + 40).min(data.len())];
+            return Err(Fail::new(
+                "pty/stream-out-of-order-or-torn",
+                format!(
+                    "received stream position {p}: no chunk >= #{next} starts here (bytes {:?}); a chunk was torn, duplicated or reordered",
+                    String::from_utf8_lossy(near)
+                ),
+            ));
+        };
+        let c = &chunks[i];
+        let end = p + c.bytes.len();
+        if end > data.len() && !complete && c.bytes.starts_with(rest) {
+            // still arriving
+            break;
+        }
+        if end > data.len() || data[p..end] != c.bytes[..] {
+            let upto = (0..c.bytes.len().min(data.len() - p)).find(|&k| data[p + k] != c.bytes[k]).unwrap_or(data.len() - p);
+            return Err(Fail::new(
+                "pty/chunk-torn-or-corrupted",
+                format!("chunk #{i} ({} bytes) arrives only up to byte {upto}", c.bytes.len()),
+            ));
+        }
+        present[i] = true;
+        p = end;
+        next = i + 1;
+    }
+    Ok(present)
 }
 
 fn fault() -> BoxedStrategy<Fault> {
@@ -554,13 +868,35 @@ impl Property for C16 {
                 }
                 Case::Pty { ops, bite, pause_us, faults }
             });
-        prop_oneof![12 => queue, 1 => pty].boxed()
+        let render = (
+            5u16..=24,
+            20u16..=80,
+            0u8..=70,
+            any::<u8>(),
+            prop_oneof![1 => Just(0usize), 3 => 20_000usize..100_000],
+            proptest::collection::vec(fault(), 0..6),
+        )
+            .prop_map(|(rows, cols, total, rel, filler, mut faults)| {
+                if !faults.is_empty() && !faults.iter().any(|f| matches!(f, Fault::None | Fault::Short(_))) {
+                    faults.push(Fault::None);
+                }
+                // progress per write attempt must stay reasonable (see above)
+                while faults.iter().any(|f| matches!(f, Fault::Short(n) if *n < 64)) && faults.len() < 12 {
+                    faults.push(Fault::None);
+                }
+                let release_at = ((rel as usize * (total as usize + 1)) >> 8) as u8;
+                Case::Render { rows, cols, total, release_at, filler, faults }
+            });
+        prop_oneof![24 => queue, 2 => pty, 1 => render].boxed()
     }
 
     fn check(&self, case: &Case) -> Outcome {
         match case {
             Case::Queue { ops } => check_queue(ops),
             Case::Pty { ops, bite, pause_us, faults } => check_pty(ops, *bite, *pause_us, faults),
+            Case::Render { rows, cols, total, release_at, filler, faults } => {
+                check_render(*rows, *cols, *total, *release_at, *filler, faults)
+            }
         }
     }
 
